@@ -19,7 +19,7 @@ pub const DENOM: &str = "stake";
 
 /// callers: the initial admin, a second admin candidate, a stranger
 pub const CALLERS: [&str; 3] = ["AD", "AD2", "X"];
-pub const HOOKS: [&str; 2] = ["H1", "H2"];
+pub const HOOKS: [&str; 3] = ["H1", "H2", "H3"];
 pub const MEMBERS: [&str; 3] = ["A", "B", "C"];
 pub const STAKERS: [&str; 2] = ["U1", "U2"];
 
@@ -118,6 +118,8 @@ pub struct GroupCfg {
     pub remove_lists: Vec<Vec<u8>>,
     /// callers that try UpdateMembers with the full alphabet (others get a reduced one)
     pub full_callers: Vec<u8>,
+    /// how many of HOOKS are in the alphabet
+    pub n_hooks: u8,
     pub hmax: u64,
 }
 
@@ -196,7 +198,7 @@ impl Model for GroupAdmin {
             out.push(GAct::UpdateAdmin { by, new: None });
             out.push(GAct::UpdateAdmin { by, new: Some(0) });
             out.push(GAct::UpdateAdmin { by, new: Some(1) });
-            for hook in 0..HOOKS.len() as u8 {
+            for hook in 0..cfg.n_hooks {
                 out.push(GAct::AddHook { by, hook });
                 out.push(GAct::RemoveHook { by, hook });
             }
@@ -329,6 +331,7 @@ pub struct StakeCfg {
     pub min_bond: u128,
     pub funds: Vec<u128>,
     pub amounts: Vec<u128>,
+    pub n_hooks: u8,
     pub hmax: u64,
 }
 
@@ -401,7 +404,7 @@ impl Model for StakeAdmin {
             out.push(SAct::UpdateAdmin { by, new: None });
             out.push(SAct::UpdateAdmin { by, new: Some(0) });
             out.push(SAct::UpdateAdmin { by, new: Some(1) });
-            for hook in 0..HOOKS.len() as u8 {
+            for hook in 0..cfg.n_hooks {
                 out.push(SAct::AddHook { by, hook });
                 out.push(SAct::RemoveHook { by, hook });
             }
